@@ -233,7 +233,7 @@ def check_c09(pid, tier, seed, replay=None):
             if r < 0.3: opt += ':ppp=' + ','.join(str(rng.choice([1,1,2,3,5])) for _ in range(rng.randint(1,3)))
             if rng.random() < 0.15: opt += f':mux={rng.choice([1,2])}'
             if rng.random() < 0.15: opt += ':hs=1'
-            if rng.random() < 0.1: opt += f':g={rng.choice([1,777,100000])}'
+            if l in (0,1,5,9,12) and rng.random() < 0.25: opt += f':g={rng.choice([1,777,100000])}' + ('' if 'ppp' in opt else ':ppp=2,3')
             toks.append(f'{l}{opt}')
         key = f'X{i}'
         C.FILES[key] = ' '.join(toks)
